@@ -17,6 +17,7 @@ import KafkaVerif.Lemmas.ReaderLoopLTS
 import KafkaVerif.Lemmas.PullReader
 import KafkaVerif.Lemmas.ReaderWorld
 import KafkaVerif.Lemmas.ReaderSystem
+import KafkaVerif.Lemmas.ByteReader
 
 namespace KV.C02
 
@@ -89,6 +90,12 @@ theorem pull_model_text :
     Gen.decoderFacts.msrMarkRead = "{ if $r.count == 0 { panic(\"markRead: negative count\") } $r.count-- $r.unwindStack() }" ∧
     Gen.decoderFacts.msrUnwind = "{ for $r.count == 0 { if $r.remain == 0 { if $r.parent != nil { $r.readerStack = $r.parent continue } } break } }" :=
   ⟨rfl, rfl, rfl, rfl⟩
+
+/-- the text `Model/ByteReader.lean` (and the payload-push / record part of `Pull.readMessageV2`) was written against:
+read.go `peekRead`, `readVarInt`, `readNewBytes`, discard.go `discardN`, message_reader.go `runFunc`,
+`readMessageHeader`, `readMessageV2` — normalised like `pull_model_text` -/
+theorem byte_model_text :
+    Gen.decoderFacts.byteFuncs = "peekRead { if $1 > $2 { return $2, errShortRead } $3, $4 := $5.Peek($1) if $4 != nil { return $2, $4 } $6($3) return discardN($5, $2, $1) } ;; readVarInt { $1, _ := $2.Peek($2.Buffered()) $3 := uint64(0) $4 := uint(0) for { if len($1) > $5 { $1 = $1[:$5] } for $6, $7 := range $1 { if $7 < 0x80 { $3 |= uint64($7) << $4 *$8 = int64($3>>1) ^ -(int64($3) & 1) $9, $10 := $2.Discard($6 + 1) return $5 - $9, $10 } $3 |= uint64($7&0x7f) << $4 $4 += 7 } $9, _ := $2.Discard(len($1)) $5 -= $9 if $5 == 0 { return 0, errShortRead } if _, $10 := $2.Peek(1); $10 != nil { if errors.Is($10, io.EOF) { $10 = errShortRead } return $5, $10 } $1, _ = $2.Peek($2.Buffered()) } } ;; readNewBytes { var $1 error var $2 []byte var $3 bool if $4 > 0 { if $5 < $4 { $4 = $5 $3 = true } $2 = make([]byte, $4) $4, $1 = io.ReadFull($6, $2) $2 = $2[:$4] $5 -= $4 if $1 == nil && $3 { $1 = errShortRead } } return $2, $5, $1 } ;; discardN { var $1 error if $2 <= $3 { $2, $1 = $4.Discard($2) } else { $2, $1 = $4.Discard($3) if $1 == nil { $1 = errShortRead } } return $3 - $2, $1 } ;; runFunc { var $1 int64 must($r.readVarInt(&$1)) $r.remain = must($2($r.reader, $r.remain, int($1))) return } ;; readMessageHeader { var $1 int64 must($r.readVarInt(&$1)) $2.Key = must($r.readNewString(int($1))) var $3 int64 must($r.readVarInt(&$3)) $2.Value = must($r.readNewBytes(int($3))) return nil } ;; readMessageV2 { must($r.readHeader()) if $r.count == int($r.header.v2.count) { var $1 CompressionCodec $1 = must($r.header.compression()) if $1 != nil { $2 := int($r.header.length - 49) if $2 > $r.remain { $3 = errShortRead return } if $2 < 0 { $3 = fmt.Errorf(\"batch remain < 0 (%d)\", $2) return } $r.decompressed.Reset() $r.decompressed.Grow(4 * $2) $4 := io.LimitedReader{R: $r.reader, N: int64($2)} $5 := $1.NewReader(&$4) _, $3 = $r.decompressed.ReadFrom($5) $5.Close() if $3 != nil { return } $r.remain -= $2 - int($4.N) $r.readerStack = &readerStack{reader: bufio.NewReaderSize($r.decompressed, 0), remain: $r.decompressed.Len(), base: -1, parent: $r.readerStack, header: $r.header, count: $r.count} $r.readerStack.parent.count = 0 } } $6 := $r.remain var $7 int64 must($r.readVarInt(&$7)) $8 := $6 - $r.remain var $9 int8 must($r.readInt8(&$9)) var $10 int64 must($r.readVarInt(&$10)) $11 = $r.header.v2.firstTimestamp + $10 var $12 int64 must($r.readVarInt(&$12)) $13 = $r.header.firstOffset + $12 must($r.runFunc($14)) must($r.runFunc($15)) var $16 int64 must($r.readVarInt(&$16)) if $16 > 0 { $17 = make([]Header, $16) for $18 := range $17 { must($r.readMessageHeader(&$17[$18])) } } $19 = $r.header.firstOffset + int64($r.header.v2.lastOffsetDelta) $r.lengthRemain -= int($7) + $8 if $r.count == 1 { $r.batchEnd = $19 + 1 } $r.markRead() return }" := rfl
 
 /-! ## 0. The defects of the pinned code (`Variant.legacy`), kept as theorems about the legacy model
 
@@ -217,6 +224,28 @@ theorem single_fetch_bytes (c : TokCfg) (enc : Int → Bytes → Bytes) (hdec : 
   simp only [responseTokens, containedRecords, hc, if_false, Int.toNat_natCast] at h
   simp only [tokenize_items c enc hdec hpos h1 h2 its hitems n (n + 1) (by omega)]
   exact ⟨h.1, h.2.1, h.2.2.1⟩
+
+/-! ### below the tokens: the byte-level reads of read.go / discard.go / message_reader.go (Model/ByteReader.lean)
+
+`readVarInt`, `peekRead` + `readInt8…64`, `readNewBytes`, `discardN` with the `remain` accounting of messageSetReader,
+`runFunc`, `readMessageHeader`, and the record part of `readMessageV2`. -/
+
+/-- `record_bytes`: where the tokenizer of `single_fetch_bytes` decides "complete record → token `r2`, else `cut`" the Go
+code decides the same from the bytes: with the whole record inside what is left of the message set (`remain`) it reads
+the record's offset delta, timestamp delta, key, value and headers, consumes exactly the record and subtracts its size
+from `lengthRemain`; with the record cut anywhere by the end of the set every path ends in errShortRead (never a
+wrong message, never a read beyond the set). -/
+theorem record_bytes (rec : Spec.RB.RecV2) (rest : Bytes) (remain : Nat) :
+    ((Spec.RB.encRec rec).length ≤ remain →
+      BR.readRecordV2 ⟨Spec.RB.encRec rec ++ rest, remain⟩ = .ok (BR.viewOf rec, ⟨rest, remain - (Spec.RB.encRec rec).length⟩) ∧
+      Spec.RB.readRec ((Spec.RB.encRec rec ++ rest).take remain) = some (rec, rest.take (remain - (Spec.RB.encRec rec).length))) ∧
+    (remain < (Spec.RB.encRec rec).length →
+      (∃ r', BR.readRecordV2 ⟨Spec.RB.encRec rec ++ rest, remain⟩ = .error (.short, r')) ∧
+      Spec.RB.readRec ((Spec.RB.encRec rec ++ rest).take remain) = none) := by
+  obtain ⟨h1, h2⟩ := BR.readRecordV2_spec rec rest remain
+  refine ⟨fun hle => ⟨h1 hle, ?_⟩, fun hlt => ⟨h2 hlt, readRec_prefix rec rest remain hlt⟩⟩
+  rw [List.take_append, List.take_of_length_le hle]
+  exact Spec.RB.readRec_encRec rec _
 
 /-! ### the decoder as the Go code is written (Model/PullReader.lean)
 
